@@ -272,11 +272,15 @@ func init() {
 	// ---------------- C09 ----------------
 	harness.Register(&harness.Check{
 		ID: "C09", Level: "model_checking",
-		Rule:        progRule + ", plus every text among the enumerated token strings (<= 3 / <= 4 tokens) that the parser accepts and all 9261 alias/recursion/mode graphs over three type names with a forwarding function between two of them; for each, ALL schedules of Typecheck's two tasks (caller and worker goroutine) are executed under the controlled scheduler (S-full), and the remaining tasks are run to quiescence after Typecheck has returned; oracle: an answer (nil or a non-empty error) within fuel, no panic in any task before or after the return, nil implies no panic; states/transitions as for C01",
+		Rule:        progRule + ", plus every text among the enumerated token strings (<= 3 / <= 4 tokens) that the parser accepts and all 9261 alias/recursion/mode graphs over three type names with a forwarding function between two of them, and 14 regular program families at sizes 6,12,24,32 (thorough: also 48,64: chains, diamonds and cycles of top-level processes, alias chains and lassos, type cycles, call chains, long bodies, wide choices, long parameter lists, split chains); for each, ALL schedules of Typecheck's two tasks (caller and worker goroutine) are executed under the controlled scheduler (S-full), and the remaining tasks are run to quiescence after Typecheck has returned; oracle: an answer (nil or a non-empty error) within fuel, no panic in any task before or after the return, nil implies no panic; states/transitions as for C01",
 		Assumptions: mcAssumptions[:2],
-		Cases:       func(c *harness.Ctx) int { return getMutSpace(c).total + c09GarbageCases(c) },
+		Cases:       func(c *harness.Ctx) int { return getMutSpace(c).total + c09GarbageCases(c) + len(c09Families) },
 		Run: func(c *harness.Ctx, idx int, r *harness.Rec) {
 			ms := getMutSpace(c)
+			if idx >= ms.total+c09GarbageCases(c) {
+				checkC09Scaling(c, idx-ms.total-c09GarbageCases(c), r)
+				return
+			}
 			if idx >= ms.total {
 				for _, text := range c09Garbage(c, idx-ms.total) {
 					checkC09(text, "token string", r)
@@ -459,6 +463,190 @@ func c09GarbageAll(c *harness.Ctx) []string {
 		"type A = lin /\\ rep 1 prc[a] : A = x <- shift self; close x", "prc[a] : 1 = case self ()", "prc[a] : 1 = case b () prc[b] : 1 = close self",
 		"type A = +{} ", "let f(x) = close self", "let f(x : Q) : 1 = wait x; close self", "prc[a] : 1 = x : 1 <- new (y : 1 <- new close self; wait y; close self); wait x; close self")
 	c09GarbageCache[c.Tier] = out
+	return out
+}
+
+// c09Scaling: regular program families of growing size (chains and diamonds of top-level processes,
+// alias chains, type cycles, call chains, long bodies, wide choices). An answer within the same fuel
+// as for every other input is demanded, so a super-polynomial pass over any of these shapes shows up
+// as "does not terminate within its fuel" at the larger sizes.
+var c09Families = []string{"chain of two-name providers", "chain of two-name providers (reverse order)", "chain of one-name providers",
+	"cycle of top-level processes", "alias chain", "alias lasso", "cycle of recursive definitions with two successors", "two copies of definitions with shared branches",
+	"call chain", "long body", "nested type", "wide choice", "many parameters", "split chain"}
+
+func c09Sizes(c *harness.Ctx) []int {
+	sizes := []int{6, 12, 24, 32}
+	if c.Thorough() {
+		sizes = append(sizes, 48, 64)
+	}
+	return sizes
+}
+
+// checkC09Scaling runs one family at growing sizes (default schedule) and reports the smallest size at
+// which the typechecker gives no answer within the fuel that suffices for every other input.
+func checkC09Scaling(c *harness.Ctx, fam int, r *harness.Rec) {
+	sizes := c09Sizes(c)
+	all := c09Scaling(sizes)
+	var fuels []string
+	for si, n := range sizes {
+		text := all[si*len(c09Families)+fam]
+		g := TypecheckText(text, nil, nil)
+		r.Add("evaluations", 1)
+		r.Add("programs", 1)
+		if g.ParseErr != "" {
+			viol(r, "generated text does not parse", c09Families[fam]+": "+g.ParseErr, text, nil)
+			return
+		}
+		var other []string
+		for _, p := range g.Panics {
+			if !strings.Contains(p, "fuel exhausted") {
+				other = append(other, NormMsg(p))
+			}
+		}
+		if len(other) > 0 {
+			viol(r, "panic: "+other[0], fmt.Sprintf("%s of size %d: %v", c09Families[fam], n, other), text, nil)
+			return
+		}
+		if g.FuelOut || g.Blocked {
+			viol(r, "typechecking time explodes: "+c09Families[fam], fmt.Sprintf("%s: no answer within %d steps at size %d (steps at smaller sizes: %s)", c09Families[fam], tcFuel, n, strings.Join(fuels, ", ")), text, nil)
+			return
+		}
+		fuels = append(fuels, fmt.Sprintf("n=%d: %d", n, g.Fuel))
+	}
+	r.Sample(map[string]interface{}{"family": c09Families[fam], "steps": strings.Join(fuels, ", ")})
+}
+
+func c09Scaling(sizes []int) []string {
+	var out []string
+	for _, n := range sizes {
+		var b strings.Builder
+		// 1. chain of two-name providers, each consuming both names of its predecessor (diamonds in the 'uses' graph)
+		b.WriteString("prc[a0, b0] : 1 = close self\n")
+		for i := 1; i < n; i++ {
+			fmt.Fprintf(&b, "prc[a%d, b%d] : 1 = wait a%d; wait b%d; close self\n", i, i, i-1, i-1)
+		}
+		fmt.Fprintf(&b, "prc[z] : 1 = wait a%d; wait b%d; close self\n", n-1, n-1)
+		out = append(out, b.String())
+		// 2. the same, declared in reverse order
+		b.Reset()
+		fmt.Fprintf(&b, "prc[z] : 1 = wait a%d; wait b%d; close self\n", n-1, n-1)
+		for i := n - 1; i >= 1; i-- {
+			fmt.Fprintf(&b, "prc[a%d, b%d] : 1 = wait a%d; wait b%d; close self\n", i, i, i-1, i-1)
+		}
+		b.WriteString("prc[a0, b0] : 1 = close self\n")
+		out = append(out, b.String())
+		// 3. chain of single-name providers
+		b.Reset()
+		b.WriteString("prc[a0] : 1 = close self\n")
+		for i := 1; i < n; i++ {
+			fmt.Fprintf(&b, "prc[a%d] : 1 = wait a%d; close self\n", i, i-1)
+		}
+		out = append(out, b.String())
+		// 4. a long cycle of top-level processes (rejected)
+		b.Reset()
+		for i := 0; i < n; i++ {
+			fmt.Fprintf(&b, "prc[a%d] : 1 = wait a%d; close self\n", i, (i+1)%n)
+		}
+		out = append(out, b.String())
+		// 5. alias chain, forwarding between its two ends
+		b.Reset()
+		b.WriteString("type T0 = +{l : 1, r : T0}\n")
+		for i := 1; i < n; i++ {
+			fmt.Fprintf(&b, "type T%d = T%d\n", i, i-1)
+		}
+		fmt.Fprintf(&b, "let f(x : T%d) : T0 = fwd self x\n", n-1)
+		out = append(out, b.String())
+		// 6. alias lasso: a chain that enters a cycle of bare names (rejected: not contractive)
+		b.Reset()
+		for i := 0; i < n; i++ {
+			fmt.Fprintf(&b, "type T%d = T%d\n", i, i+1)
+		}
+		fmt.Fprintf(&b, "type T%d = T%d\n", n, n/2)
+		fmt.Fprintf(&b, "let f(x : T0) : T0 = fwd self x\n")
+		out = append(out, b.String())
+		// 7. a cycle of n mutually recursive definitions compared with a rotation of itself
+		b.Reset()
+		for i := 0; i < n; i++ {
+			fmt.Fprintf(&b, "type T%d = +{l : T%d, r : T%d}\n", i, (i+1)%n, (i+2)%n)
+		}
+		fmt.Fprintf(&b, "let f(x : T0) : T%d = fwd self x\n", n/2)
+		out = append(out, b.String())
+		// 8. two copies of a binary-branching recursive family (equality must not re-explore shared pairs)
+		b.Reset()
+		for i := 0; i < n; i++ {
+			fmt.Fprintf(&b, "type A%d = &{l : A%d, r : A%d}\ntype B%d = &{l : B%d, r : B%d}\n", i, (i+1)%n, (i+1)%n, i, (i+1)%n, (i+1)%n)
+		}
+		b.WriteString("let f(x : A0) : B0 = fwd self x\n")
+		out = append(out, b.String())
+		// 9. call chain
+		b.Reset()
+		b.WriteString("let f0(x : 1) : 1 = wait x; close self\n")
+		for i := 1; i < n; i++ {
+			fmt.Fprintf(&b, "let f%d(x : 1) : 1 = f%d(x)\n", i, i-1)
+		}
+		fmt.Fprintf(&b, "prc[a] : 1 = y <- new close self; f%d(y)\n", n-1)
+		out = append(out, b.String())
+		// 10. one long body: n cuts, then n waits
+		b.Reset()
+		b.WriteString("prc[a] : 1 = ")
+		for i := 0; i < n; i++ {
+			fmt.Fprintf(&b, "x%d <- new close self; ", i)
+		}
+		for i := 0; i < n; i++ {
+			fmt.Fprintf(&b, "wait x%d; ", i)
+		}
+		b.WriteString("close self\n")
+		out = append(out, b.String())
+		// 11. nested cuts with typed annotation and n-fold nesting of the type
+		b.Reset()
+		ty := "1"
+		for i := 0; i < n; i++ {
+			ty = "1 * (" + ty + ")"
+		}
+		fmt.Fprintf(&b, "type N = %s\nlet f(x : N) : N = fwd self x\n", ty)
+		out = append(out, b.String())
+		// 12. a wide choice and a case over all of its labels
+		b.Reset()
+		b.WriteString("type W = +{")
+		for i := 0; i < n; i++ {
+			if i > 0 {
+				b.WriteString(", ")
+			}
+			fmt.Fprintf(&b, "l%d : 1", i)
+		}
+		b.WriteString("}\nlet f(x : W) : 1 = case x (")
+		for i := 0; i < n; i++ {
+			if i > 0 {
+				b.WriteString(" | ")
+			}
+			fmt.Fprintf(&b, "l%d<y> => wait y; close self", i)
+		}
+		b.WriteString(")\n")
+		out = append(out, b.String())
+		// 13. many parameters, all dropped
+		b.Reset()
+		b.WriteString("let f(")
+		for i := 0; i < n; i++ {
+			if i > 0 {
+				b.WriteString(", ")
+			}
+			fmt.Fprintf(&b, "p%d : 1", i)
+		}
+		b.WriteString(") : 1 = ")
+		for i := 0; i < n; i++ {
+			fmt.Fprintf(&b, "drop p%d; ", i)
+		}
+		b.WriteString("close self\n")
+		out = append(out, b.String())
+		// 14. a chain of splits of one replicable channel
+		b.Reset()
+		b.WriteString("let f(x0 : 1) : 1 = ")
+		for i := 0; i < n; i++ {
+			fmt.Fprintf(&b, "<y%d, x%d> <- split x%d; wait y%d; ", i, i+1, i, i)
+		}
+		fmt.Fprintf(&b, "wait x%d; close self\n", n)
+		out = append(out, b.String())
+	}
 	return out
 }
 
